@@ -40,6 +40,9 @@ def get(name):
   if name.startswith('gen:'):
     from corpus import exprgen
     return exprgen.get(name)
+  if name.startswith(('shape:', 'hand:')):
+    from corpus import sched_designs
+    return sched_designs.get(name)
   if name.startswith('x:'):
     from corpus import tv_extra
     return tv_extra.DESIGNS[name]
@@ -51,4 +54,7 @@ def stable_key(name):
   if name.startswith('gen:'):
     from corpus import exprgen
     return 'gen[' + ' '.join(exprgen.describe(name).split()) + ']'
+  if name.startswith('shape:'):
+    from corpus import sched_designs
+    return 'shape[' + sched_designs.describe(name) + ']'
   return name
